@@ -10,7 +10,6 @@ NA = {
  "C08": "interleaving property (readers vs flush/retire/reuse); only sequential kernels are provable and they are reported under C10/C03",
  "C14": "range scan lives entirely on crossbeam-skiplist + epoch pins, outside both tools",
  "C15": "file-system publication protocol + two whole-store recoveries; no per-function contract within reach decides it",
- "C16": "cache is 16384 RwLock<Vec<..>> buckets of Bytes/Weak<Record>; out of reach of both tools at acceptable fidelity (DESIGN §1 F6), transparency is a store-level/interleaving claim",
  "C18": "termination/deadlock freedom across threads; neither tool proves liveness",
  "C19": "real-time bound on background threads; not expressible as a function contract",
  "C20": "memory safety under interleavings of unsafe epoch/io_uring code; Kani is sequential only and Verus cannot ingest the unsafe code",
